@@ -293,21 +293,7 @@ func (r *SparseInt16Vector) VdivS(a ConstVector, b ConstScalar) Vector {
   return r
 }
 func (r *SparseInt16Vector) VDIVS(a *SparseInt16Vector, b Int16) *SparseInt16Vector {
-  if r.Dim() != a.Dim() {
-    panic("vector dimensions do not match")
-  }
-  for it := r.JOINT_ITERATOR_(a); it.Ok(); it.Next() {
-    s_r := it.s1
-    s_a := it.s2
-    if s_r.ptr == nil {
-      s_r = r.AT(it.Index())
-    }
-    if s_a.ptr == nil {
-      s_r.SetInt16(0.0)
-    } else {
-      s_r.DIV(s_a, b)
-    }
-  }
+  r.VdivS(a, b)
   return r
 }
 /* -------------------------------------------------------------------------- */
